@@ -65,6 +65,94 @@ def enumerate_behaviours(max_stmts, max_h, cases, alphabet, *, simulate=None, se
     return results
 
 
+def enumerate_to_files(max_stmts, max_h, cases, alphabet, scratch, *, simulate=None, seed=0, timeout=7200):
+    """One TLC per case in parallel, output to <scratch>/case_<n>.out.  Returns {case: (rc, path, wall)}."""
+    results = {}
+
+    def work(case):
+        cfg = os.path.join(scratch, f"RefGen_{case}.cfg")
+        with open(cfg, "w") as f:
+            f.write(_cfg_text(max_stmts, max_h, case, alphabet))
+        extra = ()
+        if simulate:
+            num, depth = simulate
+            extra = ("-simulate", f"num={num}", "-depth", str(depth), "-seed", str(seed + case))
+        path = os.path.join(scratch, f"case_{case}.out")
+        rc, wall = tlc.run_tlc_to_file(SPEC, cfg, path, workers=1, extra=extra, timeout=timeout, heap="4g")
+        results[case] = (rc, path, wall)
+
+    with ThreadPoolExecutor(max_workers=16) as ex:
+        list(ex.map(work, cases))
+    return results
+
+
+_PREFIX = b'<<"BEHAVIOUR", '
+
+
+def chunk_offsets(path, per_chunk=2000):
+    """Byte ranges of `path`, each holding about per_chunk BEHAVIOUR lines; plus the tail of the file (TLC's summary)."""
+    chunks = []
+    start = None
+    n = 0
+    pos = 0
+    total = 0
+    with open(path, "rb") as f:
+        for line in f:
+            if line.startswith(_PREFIX):
+                if start is None:
+                    start = pos
+                n += 1
+                total += 1
+                if n >= per_chunk:
+                    chunks.append((start, pos + len(line)))
+                    start, n = None, 0
+            pos += len(line)
+    if start is not None:
+        chunks.append((start, pos))
+    return chunks, total
+
+
+def compare_chunk(args):
+    """Worker: replays the behaviours in one byte range.  Returns a compact, picklable summary."""
+    path, lo, hi, fields, open_kfs = args
+    with open(path, "rb") as f:
+        f.seek(lo)
+        data = f.read(hi - lo).decode()
+    behs, bad = parse_behaviours(data)
+    res = {"n": len(behs), "ok": 0, "bad_lines": bad, "oom": 0, "npmm": [], "kf": {}, "viol": [], "sample": None}
+    for b in behs:
+        r = compare(b, fields)
+        if r is None:
+            res["ok"] += 1
+            if res["sample"] is None:
+                res["sample"] = [e["stmt"] for e in b]
+            continue
+        line, field, h, pred, obs = r
+        if line == "out_of_model":
+            res["oom"] += 1
+            continue
+        if line == "np_model_mismatch":
+            if len(res["npmm"]) < 3:
+                res["npmm"].append({"clause": "exc", "line": field, "program": [e["stmt"] for e in b]})
+            else:
+                res["npmm"].append(None)
+            continue
+        kfs = set(b[line - 1]["proj"]["kf"]) if b[line - 1]["proj"] else set()
+        hit = None
+        for key in sorted(kfs):
+            if key in open_kfs and (open_kfs[key] is None or field in open_kfs[key]):
+                hit = key
+        if hit:
+            res["kf"][hit] = res["kf"].get(hit, 0) + 1
+            continue
+        if len(res["viol"]) < 25:
+            res["viol"].append({"program": [e["stmt"] for e in b], "failing_line": line, "field": field, "handle": h,
+                                "predicted": pred, "observed": obs})
+        else:
+            res["viol"].append(None)
+    return res
+
+
 FIELDS = ("live", "v", "sh", "const", "base", "crn", "g")
 
 
